@@ -302,7 +302,8 @@ def main():
         rp = json.load(open(replay))
         lines = rp.get("cases", [])
     else:
-        lines = load_corpus(pid) + [k["case"] for k in kat.KATS.get(pid, [])] + P["gen"](rng, gen_tier)
+        # generated lines FIRST: the generators' metamorphic relations refer to line indices; corpus and known answers follow
+        lines = P["gen"](rng, gen_tier) + load_corpus(pid) + [k["case"] for k in kat.KATS.get(pid, [])]
     driver = os.path.join(LEAN, ".lake", "build", "bin", "driver")
     kf = known_findings(pid)
     extra = None
